@@ -334,7 +334,7 @@ def gen_scripts(pid, tier, seed):
             "sustained inserts of 2..4 device capacities (4..8 blocks of 64 KiB, mixed sizes, overwrites, deletes, lookups), " \
             "1..2 flushers, 1..2 reclaimers, reinsertion filter none / key 0"
     if pid == "C04":
-        n = 60 if th else 5
+        n = 60 if th else 8
         return [gen_c04(rng, False, "0,1,3" if th else "0,1") for _ in range(n)] + [gen_c04(rng, True) for _ in range(n // 2)], \
             "workloads of inserts / overwrites / deletes / waits; every write boundary of the logged device writes (plus 1- and " \
             "3-page tears of the in-flight write) turned into a device image, reopened, every key read, one more write issued; " \
@@ -502,8 +502,11 @@ def run(pid, tier, seed, gate, replay=None):
     k = min(len(results) - 1, 3)
     cov = dict(
         evaluations=(len(scripts) if pid != "C04" else sum(1 for _, ls in results for l in ls if l.startswith("crashprobe"))) or 1,
-        distinct_nontrivial=len(nontrivial) or (1 if corr_replay else 0),
-        rule=rule + "; non-trivial = at least one entry write, disk hit, crash image or fault; distinct = SHA-1 of the script",
+        distinct_nontrivial=(len(nontrivial) if pid != "C04" else
+                             len({(C.case_hash(s), l.split("|")[0]) for s, (_, ls) in zip(scripts, results) for l in ls if l.startswith("crashprobe")}))
+                            or (1 if corr_replay else 0),
+        rule=rule + "; non-trivial = at least one entry write, disk hit, crash image or fault; distinct = SHA-1 of the script"
+             + (" and the crash point (one case = one device image reopened)" if pid == "C04" else ""),
         samples=[dict(script=scripts[k].strip().split("\n")[:14], impl=[l[:200] for l in results[k][1][:8]])] if results else [],
         traces_validated_against_impl=len(scripts) - len(failing),
         input_distribution=dict(scripts=len(scripts), situations=flags, known_findings_hit=sorted(known_seen),
